@@ -1,8 +1,11 @@
+from .. import smt_units
+
 PROP = {
     "kani_groups": ["hk_file"],
-    "smt": [],
+    "smt": [smt_units.unit_file_arith],
     "technique": "bounded model checking (Kani/CBMC) of the file-writing kernels of emit_file over a fault-injecting harness filesystem",
-    "functions": [],
+    "functions": ["E2 (mir2smt, MIR -> SMT-LIB Int, cvc5 + z3): emit_file::rolling_millis composed with Timestamp::{to_parts, from_parts, duration_since} "
+                  "for every clock reading in [MIN, MAX] x {Day, Hour, Minute}: panic-free, < 86 400 000, monotone within a period"],
     "bounds": "",
     "outside": "",
     "stubs": [],
